@@ -324,6 +324,12 @@ fn contents(thorough: bool) -> Vec<Vec<u8>> {
     for reps in [1usize, 10, 1000] {
         out.push("the quick brown fox jumps over the lazy dog. ".repeat(reps).into_bytes());
     }
+    // highly repetitive blocks just above 64 KiB and well above (compression ratios near the
+    // format's maximum)
+    for n in [65_537usize, 100_000, 200_000] {
+        out.push(vec![0x00; n]);
+        out.push((0..n).map(|i| b"ab"[i % 2]).collect());
+    }
     for n in [127usize, 128, 129, 16383, 16384, 16385] {
         out.push((0..n).map(|i| (i % 7) as u8).collect());
     }
@@ -650,6 +656,26 @@ pub fn run_c17(tier: &str, only: Option<String>) -> i32 {
         if o != Out::Ok(vec![1, 1, 0, 1, 1, 1, 2, 0]) {
             st.violate("C17 unknown-size-iterator".into(), "iter:unknown".into(), json!({"result": format!("{o:?}")}));
         }
+        {
+            // a string of exactly 2^31 bytes (one more than the format's 31-bit length can express)
+            let s: String = String::from_utf8(vec![0x20u8; 1usize << 31]).unwrap();
+            let (o, _) = guarded(|| desert::serialize(&s, desert::SizeCalculator::new()));
+            st.states += 1;
+            st.transitions += 1;
+            if !matches!(o, Out::Err(ErrKind::LengthTooLarge)) {
+                st.violate(format!("C17 length String 2^31 bytes outcome={}", o.class()), "len:str31".into(), json!({"result": o.class()}));
+            } else {
+                st.bump("length:LengthTooLarge");
+            }
+            let (o, _) = guarded(|| desert::serialize(&desert::DeduplicatedString(s), desert::SizeCalculator::new()));
+            st.states += 1;
+            st.transitions += 1;
+            if !matches!(o, Out::Err(ErrKind::LengthTooLarge)) {
+                st.violate(format!("C17 length DeduplicatedString 2^31 bytes outcome={}", o.class()), "len:dstr31".into(), json!({"result": o.class()}));
+            } else {
+                st.bump("length:LengthTooLarge");
+            }
+        }
         if thorough {
             // lazily zeroed huge byte containers: the length must be refused before anything is written
             let big: Vec<u8> = vec![0u8; (1usize << 32) + 1];
@@ -662,12 +688,12 @@ pub fn run_c17(tier: &str, only: Option<String>) -> i32 {
                 st.bump("length:LengthTooLarge");
             }
             drop(big);
-            let s: String = String::from_utf8(vec![0x20u8; 1usize << 31]).unwrap();
+            let s: String = String::from_utf8(vec![0x20u8; (1usize << 31) + 1]).unwrap();
             let (o, _) = guarded(|| desert::serialize(&s, desert::SizeCalculator::new()));
             st.states += 1;
             st.transitions += 1;
             if !matches!(o, Out::Err(ErrKind::LengthTooLarge)) {
-                st.violate("C17 length String 2GiB".into(), "len:str".into(), json!({"result": o.class()}));
+                st.violate("C17 length String 2GiB+1".into(), "len:str".into(), json!({"result": o.class()}));
             } else {
                 st.bump("length:LengthTooLarge");
             }
